@@ -465,6 +465,11 @@ func runParseCase(c *Ctx, expr string, label string) parseOut {
 	}
 	if len(o.initial) == 0 {
 		c.count("empty")
+		// only the empty token sequence is the empty expression: a token sequence that is not empty (the parser is handed a
+		// whitespace token, say) but holds no expression token is no sentence, to be rejected
+		if n := len(exprTokens(expr)); n > 0 && o.code == "" {
+			c.fail(Failure{Kind: "oracle", Op: "expr " + strRunes(expr), Impl: impl, Note: fmt.Sprintf("the text %q gives the parser %d token(s), none of them an expression token; that is no sentence of the grammar but it was accepted", expr, n)})
+		}
 		return o
 	}
 	if len(o.initial) > 80 {
